@@ -8,7 +8,8 @@
 //! here and stay tied to the model by the correspondence check. Anything outside the small
 //! grammar below aborts the translation.
 //!
-//!   body   ::= ( `let x = x.as_ref();` | `let v = sum;` | `if cond { return Err(E); }` )*  tail
+//!   body   ::= ( `let x = x.as_ref();` | `let v = sum;` | `let s = self.shards[sum].as_flattened();`
+//!              | `if cond { return Err(E); }` )*  ( tail | branch )
 //!   tail   ::= `if cond { branch } else tail` | `{ branch }` | branch
 //!   branch ::= effect* ( `Ok(..)` | `Err(E)` ) | `None` | `Some(&self.shards[sum].as_flattened()[..sum])`
 //!              (effects only before `Ok`; early `if cond { return None; }` is accepted as well)
@@ -37,6 +38,8 @@ struct G<'a> {
     locals: Vec<String>,
     sig_params: Vec<String>,
     ok_count: usize,
+    /// locals bound to `self.shards[pos].as_flattened()`: name -> pos
+    shard_locals: HashMap<String, String>,
 }
 
 fn path_ident(e: &Expr) -> Option<String> {
@@ -227,15 +230,51 @@ impl<'a> G<'a> {
             },
             _ => return self.un("slice that is not `[..len]`"),
         };
-        let shard = match base {
-            Expr::MethodCall(m) if m.method == "as_flattened" && m.args.is_empty() => &*m.receiver,
-            _ => return self.un("slice of something that is not `shard.as_flattened()`"),
-        };
-        let pos = match shard {
-            Expr::Index(ix) if self_field(&ix.expr).as_deref() == Some("shards") => self.sum(&ix.index)?,
-            _ => return self.un("shard that is not `self.shards[pos]`"),
+        let pos = match base {
+            Expr::Path(_) => match path_ident(base).and_then(|n| self.shard_locals.get(&n).cloned()) {
+                Some(p) => p,
+                None => return self.un("slice of a local that is not a flattened shard"),
+            },
+            _ => match self.shard_pos(base)? {
+                Some(p) => p,
+                None => return self.un("slice of something that is not `self.shards[pos].as_flattened()`"),
+            },
         };
         Ok(Some(format!("GSome {} {}", pos, len)))
+    }
+
+    /// `self.shards[pos].as_flattened()` -> pos
+    fn shard_pos(&mut self, e: &Expr) -> R<Option<String>> {
+        let shard = match e {
+            Expr::MethodCall(m) if m.method == "as_flattened" && m.args.is_empty() => &*m.receiver,
+            _ => return Ok(None),
+        };
+        match shard {
+            Expr::Index(ix) if self_field(&ix.expr).as_deref() == Some("shards") => Ok(Some(self.sum(&ix.index)?)),
+            _ => Ok(None),
+        }
+    }
+
+    /// `let name = self.shards[pos].as_flattened();`
+    fn shard_let(&mut self, s: &Stmt) -> R<bool> {
+        if let Stmt::Local(l) = s {
+            if has_cfg(&l.attrs) {
+                return Ok(false);
+            }
+            let name = match &l.pat {
+                syn::Pat::Ident(pi) if pi.by_ref.is_none() && pi.subpat.is_none() => pi.ident.to_string(),
+                _ => return Ok(false),
+            };
+            let init = match &l.init {
+                Some(i) if i.diverge.is_none() => &*i.expr,
+                _ => return Ok(false),
+            };
+            if let Some(p) = self.shard_pos(init)? {
+                self.shard_locals.insert(name, p);
+                return Ok(true);
+            }
+        }
+        Ok(false)
     }
 
     fn is_ok(e: &Expr) -> bool {
@@ -275,8 +314,10 @@ impl<'a> G<'a> {
             self.ok_count += 1;
             return Ok(format!("GOk {}", k));
         }
-        if !init.is_empty() {
-            return self.un("statements before an `Err(..)` or nested `if`");
+        for st in init {
+            if !self.shard_let(st)? {
+                return self.un("statements before an `Err(..)`, `Some(..)` or nested `if`");
+            }
         }
         self.tail(tail)
     }
@@ -333,6 +374,9 @@ impl<'a> G<'a> {
                             continue;
                         }
                     }
+                    if self.shard_let(st)? {
+                        continue;
+                    }
                     let v = self.sum(init)?;
                     self.locals.push(name.clone());
                     pre.push(format!("let {} := {} in", name, v));
@@ -361,8 +405,20 @@ impl<'a> G<'a> {
                     pre.push(format!("if {} then {} else", c, v));
                 }
                 Stmt::Expr(e, None) if last => {
-                    let t = self.tail(e)?;
+                    let t = if Self::is_ok(e) {
+                        let k = self.ok_count;
+                        self.ok_count += 1;
+                        format!("GOk {}", k)
+                    } else {
+                        self.tail(e)?
+                    };
                     pre.push(t);
+                }
+                st if Self::is_effect(st) => {
+                    // effects on `self` followed by the final value: the last branch
+                    let t = self.branch(&block.stmts[k..])?;
+                    pre.push(t);
+                    break;
                 }
                 _ => return self.un("statement outside the guard grammar"),
             }
@@ -415,6 +471,7 @@ pub fn gen_guards(cr: &Crate, ctors: &HashMap<String, Vec<String>>) -> R<String>
             locals: Vec::new(),
             sig_params,
             ok_count: 0,
+            shard_locals: HashMap::new(),
         };
         let body = g.body(block)?;
         let mut args: Vec<String> = g.fields.iter().cloned().collect();
